@@ -2644,10 +2644,18 @@ class QuicConnection:
         # such packets must be ignored.
         #
         # https://datatracker.ietf.org/doc/html/rfc9368#section-4
+        #
+        # A genuine Version Negotiation packet echoes the Destination
+        # Connection ID of our Initial as its Source Connection ID; anything
+        # else (for instance a long header packet whose version field was
+        # corrupted in transit) was not sent in response to our packet.
+        #
+        # https://datatracker.ietf.org/doc/html/rfc9000#section-17.2.1
         if (
             self._is_client
             and self._state == QuicConnectionState.FIRSTFLIGHT
             and not self._version_negotiated_incompatible
+            and header.source_cid == self._peer_cid.cid
         ):
             if self._quic_logger is not None:
                 self._quic_logger.log_event(
